@@ -3,46 +3,122 @@
   One command per input line, exactly one output line per command.
 -/
 import AxVerif.Model.Parse
+import AxVerif.Model.Machine
 open Ax
 
-structure DState where
-  regs : Regs := Regs.zero
+abbrev DState := Machine
 
 def regsLine (r : Regs) : String :=
   " ".intercalate ((List.finRange 16).map fun i => toHex (r.get i).toNat) ++ " " ++ toHex r.rip.toNat
 
-def handle (st : DState) (ws : List String) : DState × String :=
+def areaLine (ar : Area) : String :=
+  s!"{optName ar.name},{toHex ar.start},{toHex ar.len},{ar.access},{toHex ar.data.length},{toHex (fnv64 ar.data)}"
+
+def unitOut : Out Unit → String := outStr (fun _ => "ok")
+
+def memRes (st : DState) (r : Out Mem) : DState × String :=
+  match r with
+  | .ok m => ({ st with mem := m }, "ok")
+  | .err => (st, "err")
+  | .panic => (st, "panic")
+
+def addrRes (st : DState) (r : Out (Nat × Mem)) : DState × String :=
+  match r with
+  | .ok (a, m) => ({ st with mem := m }, "ok " ++ toHex a)
+  | .err => (st, "err")
+  | .panic => (st, "panic")
+
+def handleReg (st : DState) (ws : List String) : Option (DState × String) :=
   match ws with
-  | ["new"] => ({}, "-")
   | ["setregs", v] =>
-    -- 17 comma separated hex values: 16 GPR in encoding order, RIP
     match (v.splitOn ",").mapM parseHex? with
     | some vals =>
       if vals.length = 17 then
         let r : Regs := { st.regs with
           gpr := Vector.ofFn fun i => BitVec.ofNat 64 (vals.getD i.val 0),
           rip := BitVec.ofNat 64 (vals.getD 16 0) }
-        ({ st with regs := r }, "-")
-      else (st, "bad-op")
-    | none => (st, "bad-op")
+        some ({ st with regs := r }, "-")
+      else none
+    | none => none
   | ["rw", w, r, v] =>
     match w.toNat?, parseReg? r, parseHex? v with
     | some w, some r, some v =>
       if v < U64 then
         let (s', res) := regStep st.regs (.write w r (BitVec.ofNat 64 v))
-        ({ st with regs := s' }, match res with
+        some ({ st with regs := s' }, match res with
           | .wrote => "ok" | .rejected => "err" | .crashed => "panic" | .value _ => "bad")
-      else (st, "bad-op")
-    | _, _, _ => (st, "bad-op")
+      else none
+    | _, _, _ => none
   | ["rr", w, r] =>
     match w.toNat?, parseReg? r with
     | some w, some r =>
       let (s', res) := regStep st.regs (.read w r)
-      ({ st with regs := s' }, match res with
+      some ({ st with regs := s' }, match res with
         | .value v => "ok " ++ toHex v.toNat | .rejected => "err" | .crashed => "panic" | .wrote => "bad")
-    | _, _ => (st, "bad-op")
-  | ["regs"] => (st, regsLine st.regs)
-  | _ => (st, "bad-op")
+    | _, _ => none
+  | ["regs"] => some (st, regsLine st.regs)
+  | _ => none
+
+def handleMem (st : DState) (ws : List String) : Option (DState × String) :=
+  match ws with
+  | ["mrb", a, n] => do
+    let a ← parseHex? a; let n ← parseHex? n
+    pure (st, outStr (fun bs => "ok " ++ bytesToHex bs) (memReadBytes st.mem a n))
+  | ["mwb", a, d] => do
+    let a ← parseHex? a; let d ← parseHexBytes? d
+    pure (memRes st (memWriteBytes st.mem a d))
+  | ["mr", n, a] => do
+    let n ← n.toNat?; let a ← parseHex? a
+    pure (st, outStr (fun v => "ok " ++ toHex v) (memReadN st.mem n a))
+  | ["mw", n, a, v] => do
+    let n ← n.toNat?; let a ← parseHex? a; let v ← parseHex? v
+    pure (memRes st (memWriteN st.mem n a v))
+  | ["mrx", a] => do
+    let a ← parseHex? a
+    pure (st, outStr (fun bs => "ok " ++ bytesToHex bs) (memReadExec st.mem a))
+  | ["area", s, d, nm] => do
+    let s ← parseHex? s; let d ← parseHexBytes? d
+    pure (memRes st (initArea st.mem s d (parseName nm)))
+  | ["zero", s, n, nm] => do
+    let s ← parseHex? s; let n ← parseHex? n
+    pure (memRes st (initZero st.mem s n (parseName nm)))
+  | ["prot", s, p] => do
+    let s ← parseHex? s; let p ← parseHex? p
+    pure (memRes st (memProt st.mem s p))
+  | ["resize", s, n] => do
+    let s ← parseHex? s; let n ← parseHex? n
+    pure (memRes st (resizeSection st.mem s n))
+  | ["anyz", n] => do
+    let n ← parseHex? n
+    pure (addrRes st (initZeroAnywhere st.mem n))
+  | ["any", d, nm] => do
+    let d ← parseHexBytes? d
+    pure (addrRes st (initAnywhere st.mem d (parseName nm)))
+  | ["areas"] => some (st, if st.mem.isEmpty then "none" else " ".intercalate (st.mem.map areaLine))
+  | _ => none
+
+def handle (st : DState) (ws : List String) : DState × String :=
+  match ws with
+  | ["new"] =>
+    match Machine.new Regs.zero [0x90#8] 0x1000 0x1000 with
+    | .ok s => (s, "ok")
+    | .err => (st, "err")
+    | .panic => (st, "panic")
+  | ["new", code, start, rip] =>
+    match parseHexBytes? code, parseHex? start, parseHex? rip with
+    | some c, some s, some r =>
+      match Machine.new Regs.zero c s r with
+      | .ok m => (m, "ok")
+      | .err => (st, "err")
+      | .panic => (st, "panic")
+    | _, _, _ => (st, "bad-op")
+  | _ =>
+    match handleReg st ws with
+    | some r => r
+    | none =>
+      match handleMem st ws with
+      | some r => r
+      | none => (st, "bad-op")
 
 partial def loop (h : IO.FS.Stream) (out : IO.FS.Stream) (st : DState) : IO Unit := do
   let line ← h.getLine
